@@ -5,6 +5,7 @@ package main
 import (
 	"bytes"
 	"crypto/sha256"
+	"encoding/base64"
 	"encoding/hex"
 	"fmt"
 	"os"
@@ -128,6 +129,23 @@ func goReader(a []string) string {
 	if h.Canon(got) != h.CanonTable(t, roots) {
 		return "FAIL reader-cells-differ"
 	}
+	// the same bag of cells carried as hex and as base64 (standard alphabet, padded)
+	for _, form := range []struct {
+		name string
+		f    func() ([]*boc.Cell, error)
+	}{
+		{"hex", func() ([]*boc.Cell, error) { return boc.DeserializeBocHex(hex.EncodeToString(bs)) }},
+		{"base64", func() ([]*boc.Cell, error) { return boc.DeserializeBocBase64(base64.StdEncoding.EncodeToString(bs)) }},
+	} {
+		var g2 []*boc.Cell
+		var e2 error
+		if p, what := safely(func() { g2, e2 = form.f() }); p {
+			return "FAIL reader-panic " + form.name + "_" + what
+		}
+		if e2 != nil || len(g2) != len(roots) || h.Canon(g2) != h.Canon(got) {
+			return "FAIL reader-string-form " + form.name
+		}
+	}
 	cells := h.BuildCells(t)
 	for i, r := range roots {
 		h1, e1 := cells[r].Hash()
@@ -250,6 +268,26 @@ func goWriter(a []string) string {
 		if err4 != nil || !bytes.Equal(bs, b4) {
 			return fmt.Sprintf("FAIL canonical SerializeBoc_differs_opts%d", o)
 		}
+		if o == 0 || o == 7 {
+			// the `flags` argument of boc.SerializeBoc: only the two reserved header bits change, the reader ignores them
+			for fl := uint(1); fl <= 3; fl++ {
+				bf, errf := boc.SerializeBoc(root, idx, crc, cache, fl)
+				if errf != nil || len(bf) != len(bs) || bf[4] != bs[4]|byte(fl<<3) || !bytes.Equal(bf[:4], bs[:4]) {
+					return fmt.Sprintf("FAIL flags opts%d_flags%d_header", o, fl)
+				}
+				end := len(bs)
+				if crc {
+					end -= 4
+				}
+				if !bytes.Equal(bf[5:end], bs[5:end]) {
+					return fmt.Sprintf("FAIL flags opts%d_flags%d_body", o, fl)
+				}
+				cs, errp := boc.DeserializeBoc(bf)
+				if errp != nil || len(cs) != 1 || h.Canon(cs) != want {
+					return fmt.Sprintf("FAIL flags opts%d_flags%d_reparse", o, fl)
+				}
+			}
+		}
 		if o == 0 {
 			b5, err5 := root.ToBoc()
 			if err5 != nil || !bytes.Equal(bs, b5) {
@@ -270,6 +308,11 @@ func goWriter(a []string) string {
 		if hb, e := back[0].Hash(); e != nil || !bytes.Equal(hb, wantHash) {
 			return fmt.Sprintf("FAIL roundtrip-hash opts%d", o)
 		}
+		// every string form of the same bytes: hex and base64 (standard alphabet, padded) writers, and the hex / base64 /
+		// single-root / Must… / JSON readers
+		if msg := stringForms(root, bs, idx, crc, cache, o, want, wantHash); msg != "" {
+			return fmt.Sprintf("FAIL string-form opts%d_%s", o, msg)
+		}
 		lines = append(lines, fmt.Sprintf("boc.check %s %s %s%s%s", h.Hex(bs), a[0], b01s(idx), b01s(crc), b01s(cache)))
 	}
 	if len(lines) == 0 {
@@ -285,6 +328,71 @@ func goWriter(a []string) string {
 		}
 	}
 	return "ok"
+}
+
+// stringForms: the string-valued writers must render exactly the bytes of ToBocCustom (lower-case hex; base64 with the
+// standard alphabet and padding), and every string-valued reader must return the same cells.
+func stringForms(root *boc.Cell, bs []byte, idx, crc, cache bool, o int, want string, wantHash []byte) string {
+	hx := hex.EncodeToString(bs)
+	b64 := base64.StdEncoding.EncodeToString(bs)
+	if s, err := root.ToBocStringCustom(idx, crc, cache, 0); err != nil || s != hx {
+		return "ToBocStringCustom"
+	}
+	if s, err := root.ToBocBase64Custom(idx, crc, cache, 0); err != nil || s != b64 {
+		return "ToBocBase64Custom"
+	}
+	if o == 0 {
+		if s, err := root.ToBocString(); err != nil || s != hx {
+			return "ToBocString"
+		}
+		if s, err := root.ToBocBase64(); err != nil || s != b64 {
+			return "ToBocBase64"
+		}
+		if js, err := root.MarshalJSON(); err != nil || string(js) != "\""+hx+"\"" {
+			return "MarshalJSON"
+		}
+	}
+	if o != 0 && o != 7 {
+		return "" // the readers are exercised on two of the eight option sets (cost)
+	}
+	same := func(cs []*boc.Cell, err error) bool {
+		if err != nil || len(cs) != 1 {
+			return false
+		}
+		hb, e := cs[0].Hash()
+		return e == nil && bytes.Equal(hb, wantHash) && h.Canon(cs) == want
+	}
+	one := func(c *boc.Cell, err error) bool { return err == nil && c != nil && same([]*boc.Cell{c}, nil) }
+	var msg string
+	if p, _ := safely(func() {
+		switch {
+		case !same(boc.DeserializeBocHex(hx)):
+			msg = "DeserializeBocHex"
+		case !same(boc.DeserializeBocHex(strings.ToUpper(hx))):
+			msg = "DeserializeBocHex_upper"
+		case !same(boc.DeserializeBocBase64(b64)):
+			msg = "DeserializeBocBase64"
+		case !one(boc.DeserializeSingleRootBoc(bs)):
+			msg = "DeserializeSingleRootBoc"
+		case !one(boc.DeserializeSinglRootHex(hx)):
+			msg = "DeserializeSinglRootHex"
+		case !one(boc.DeserializeSinglRootBase64(b64)):
+			msg = "DeserializeSinglRootBase64"
+		case !one(boc.MustDeserializeSinglRootHex(hx), nil):
+			msg = "MustDeserializeSinglRootHex"
+		case !one(boc.MustDeserializeSinglRootBase64(b64), nil):
+			msg = "MustDeserializeSinglRootBase64"
+		}
+		if msg == "" {
+			var c boc.Cell
+			if err := c.UnmarshalJSON([]byte("\"" + hx + "\"")); err != nil || !one(&c, nil) {
+				msg = "UnmarshalJSON"
+			}
+		}
+	}); p {
+		return "panic"
+	}
+	return msg
 }
 
 func b01s(b bool) string {
